@@ -26,7 +26,7 @@ package netconf
 //@   ensures #table-success-iff (result == nil) <==> ((h10 || h11) && (pref == "1.0" ==> h10) && (pref == "1.1" ==> h11))
 //@   ensures #table-selected result == nil ==> d.SelectedVersion == ((h11 && pref != "1.0") ? "1.1" : "1.0")
 //@   ensures #error-class result != nil ==> isErr(result, util.ErrNetconfError)
-//@   ensures #delimiter-follows-version result == nil ==> d.Channel.PromptPattern == (d.SelectedVersion == "1.1" ? netconfPatternsInstance.v1Dot1Delim : netconfPatternsInstance.v1Dot0Delim)
+//@   ensures [C09 C08] #delimiter-follows-version result == nil ==> d.Channel.PromptPattern == (d.SelectedVersion == "1.1" ? netconfPatternsInstance.v1Dot1Delim : netconfPatternsInstance.v1Dot0Delim)
 
 //@ func (*Driver).sendClientCapabilities [C09]
 //@   requires d.SelectedVersion == "1.0" || d.SelectedVersion == "1.1"
